@@ -54,7 +54,7 @@ def run(ctx):
         gen(ctx, binp, "octets", 0, 1, [0])
         tv(ctx, binp, "c03", 4000, 16)
     ctx.assumptions += [
-        "texts using escapes RFC 1035 leaves undefined (\\DDD > 255, backslash followed by 1-2 digits) are outside the universe",
+        "texts with \\DDD > 255 (undefined in RFC 1035) are outside the universe; a backslash before a digit that does not start three digits is read as that digit",
         "the empty string is not a name (PackDomainName documents it as 'no name')",
     ]
     return ctx.finish(rule="vectors: every text over 8 symbols (a A 0 . \\ space \\200 \\.) up to N symbols; every label-length "
